@@ -227,7 +227,7 @@ mutant('C13', 'c13-no-finally', PIPE,
 mutant('C13', 'c13-del-no-throttle', PIPE,
        "        del self._subscriptions[identifier]\n        self._throttle_subscribers()",
        "        del self._subscriptions[identifier]",
-       'K _del_subscriber', 'remaining transfers never speed up')
+       'K subscriptions:replans', 'remaining transfers never speed up')
 mutant('C13', 'c13-scale-no-wake', PIPE,
        "            self._throughput_scale = self.throughput / desired_throughput\n            self._congested.__awake_all__()",
        "            self._throughput_scale = self.throughput / desired_throughput",
